@@ -85,8 +85,12 @@ func (x *Exec) mapDom(st *State, mv MapV) Term {
 	return Select(x.arr(st, dn, arrSort(SRef, arrSort(ks, SBool))), mv.Ref)
 }
 
+func cardName(mt *types.Map) string {
+	return "Mcard." + typeName(mt.Key()) + "=>" + typeName(mt.Elem())
+}
+
 func (x *Exec) mapCard(st *State, mv MapV) Term {
-	return Select(x.arr(st, "Mcard", arrSort(SRef, SInt)), mv.Ref)
+	return Select(x.arr(st, cardName(mv.Typ.Underlying().(*types.Map)), arrSort(SRef, SInt)), mv.Ref)
 }
 
 func (x *Exec) mapInit(st *State, mv MapV) {
@@ -96,7 +100,7 @@ func (x *Exec) mapInit(st *State, mv MapV) {
 	ds := arrSort(SRef, arrSort(ks, SBool))
 	x.setArr(st, dn, ds, Store(x.arr(st, dn, ds), mv.Ref, "((as const "+arrSort(ks, SBool)+") false)"))
 	cs := arrSort(SRef, SInt)
-	x.setArr(st, "Mcard", cs, Store(x.arr(st, "Mcard", cs), mv.Ref, "0"))
+	x.setArr(st, cardName(mt), cs, Store(x.arr(st, cardName(mt), cs), mv.Ref, "0"))
 }
 
 func (x *Exec) mapValAt(st *State, mv MapV, k Term) Value {
@@ -123,7 +127,7 @@ func (x *Exec) havocMap(st *State, mv MapV) {
 	cs := arrSort(SRef, SInt)
 	nc := x.smt.fresh("mh.card", SInt)
 	x.smt.assume("(>= " + nc + " 0)")
-	x.setArr(st, "Mcard", cs, Store(x.arr(st, "Mcard", cs), mv.Ref, nc))
+	x.setArr(st, cardName(mt), cs, Store(x.arr(st, cardName(mt), cs), mv.Ref, nc))
 	for _, l := range leafShape(mt.Elem()) {
 		s := arrSort(SRef, arrSort(ks, l.sort))
 		x.setArr(st, vn+l.suffix, s, Store(x.arr(st, vn+l.suffix, s), mv.Ref, x.smt.fresh("mh.val", arrSort(ks, l.sort))))
@@ -140,8 +144,10 @@ func (x *Exec) mapStore(st *State, mv MapV, key, val Value) {
 	dom := x.arr(st, dn, ds)
 	had := Select(Select(dom, mv.Ref), k)
 	cs := arrSort(SRef, SInt)
-	card := x.arr(st, "Mcard", cs)
-	x.setArr(st, "Mcard", cs, Store(card, mv.Ref, "(+ "+Select(card, mv.Ref)+" "+Ite(had, "0", "1")+")"))
+	card := x.arr(st, cardName(mt), cs)
+	// a map that holds a key has at least one entry
+	x.assumeAt(st, And("(>= "+Select(card, mv.Ref)+" 0)", Implies(had, "(>= "+Select(card, mv.Ref)+" 1)")))
+	x.setArr(st, cardName(mt), cs, Store(card, mv.Ref, "(+ "+Select(card, mv.Ref)+" "+Ite(had, "0", "1")+")"))
 	x.setArr(st, dn, ds, Store(dom, mv.Ref, Store(Select(dom, mv.Ref), k, "true")))
 	sh := leafShape(mt.Elem())
 	ls := flatten(x.retype(val, mt.Elem()))
@@ -166,8 +172,9 @@ func (x *Exec) mapDelete(st *State, mv MapV, key Value) {
 	dom := x.arr(st, dn, ds)
 	had := Select(Select(dom, mv.Ref), k)
 	cs := arrSort(SRef, SInt)
-	card := x.arr(st, "Mcard", cs)
-	x.setArr(st, "Mcard", cs, Store(card, mv.Ref, "(- "+Select(card, mv.Ref)+" "+Ite(had, "1", "0")+")"))
+	card := x.arr(st, cardName(mt), cs)
+	x.assumeAt(st, And("(>= "+Select(card, mv.Ref)+" 0)", Implies(had, "(>= "+Select(card, mv.Ref)+" 1)")))
+	x.setArr(st, cardName(mt), cs, Store(card, mv.Ref, "(- "+Select(card, mv.Ref)+" "+Ite(had, "1", "0")+")"))
 	x.setArr(st, dn, ds, Store(dom, mv.Ref, Store(Select(dom, mv.Ref), k, "false")))
 }
 
@@ -182,6 +189,7 @@ func (x *Exec) lookup(fr *Frame, st *State, ins *ssa.Lookup) Value {
 	mt := mv.Typ.Underlying().(*types.Map)
 	k := m.def("k", x.keySort(mt.Key()), x.keyTerm(mt.Key(), x.val(fr, st, ins.Index)))
 	has := m.def("has", SBool, And(Not(Eq(mv.Ref, NilRef)), Select(x.mapDom(st, mv), k)))
+	x.assumeAt(st, Implies(has, "(>= "+x.mapCard(st, mv)+" 1)"))
 	v := m.iteValue(has, x.mapValAt(st, mv, k), m.zeroValue(mt.Elem()))
 	if ins.CommaOk {
 		return TupleV{E: []Value{v, Scalar{T: has, Sort: SBool, Typ: types.Typ[types.Bool]}}}
